@@ -686,6 +686,41 @@ func r05_4(c *Ctx, rule string) {
 		c.R.Undecided(rule, c.name(loop)+"/dir-to-nondir-records-prefix", c.pos(sf), "the prefix variable or the directory test of the destination entry was not found")
 		return
 	}
+	// ... and only then: a directory that stays a directory keeps its children,
+	// the deletes of its stale entries must reach the writer
+	{
+		asDir := map[string]bool{}
+		for k, v := range as {
+			asDir[k] = v
+		}
+		for _, call := range c.P.CallsTo(loop, "types.(*Stat).IsDir", "(io/fs.FileMode).IsDir", "(io/fs.FileInfo).IsDir") {
+			cl, ok := call.(*ssa.Call)
+			if !ok {
+				continue
+			}
+			if v, isB := as[x.KeyAtEntry(cl)]; isB && !v {
+				asDir[x.KeyAtEntry(cl)] = true // the source entry is a directory too
+			}
+		}
+		ex := c.explorer(loop)
+		ex.From = sf
+		ex.Assume = asDir
+		// (within the iteration of this sameFile call: the next classification starts another)
+		ex.Barrier = func(in ssa.Instruction, st *eng.State) bool {
+			return c.P.IsCallTo(in, "freevar:changeFn") || c.P.IsCallTo(in, "fsutil.nextPath") || c.P.IsCallTo(in, "fsutil.pathChange")
+		}
+		ex.Target = func(in ssa.Instruction, st *eng.State) bool { return isRecord(in) }
+		ex.StopAtTarget = true
+		h := ex.Run()
+		switch {
+		case ex.Exhausted:
+			c.R.Undecided(rule, c.name(loop)+"/dir-to-dir-keeps-children-deletes", c.pos(sf), "state limit")
+		case len(h) > 0:
+			c.R.Fail(rule, c.name(loop)+"/dir-to-dir-keeps-children-deletes", c.pos(h[0].Instr), "the removed-directory prefix is recorded although the source entry is a directory too: the deletes of the stale entries below a directory that merely changed are suppressed and the entries survive; path "+eng.BlockTrace(loop, h[0].Trace))
+		default:
+			c.R.OK(rule, c.name(loop)+"/dir-to-dir-keeps-children-deletes", c.pos(sf), "a directory modified into a directory records no prefix")
+		}
+	}
 	ok, hit, und := c.Precedes(loop, sf, as, isRecord, func(in ssa.Instruction) bool { return c.P.IsCallTo(in, "freevar:changeFn") })
 	switch {
 	case und:
